@@ -2,7 +2,7 @@
 # Generates MANIFEST.json from the claims table below (kept in one place so the manifest stays valid).
 import json, subprocess
 hooks = subprocess.check_output(['git','-C','/repo','log','--format=%H %s']).decode().splitlines()
-hook_commits = [l.split()[0] for l in l_ if True] if False else [l.split()[0] for l in hooks if l.split(' ',1)[1].startswith('verif:')]
+hook_commits = [l.split()[0] for l in hooks if l.split(' ',1)[1].startswith(('verif:', 'verif hooks:'))]
 TECH = "contract-based deductive verification: weakest-precondition VCs generated over go/ssa from contracts in <pkg>/verif_contracts.go, discharged by z3 5.1.0 / cvc5 1.0 / z3 4.8.12; counterexamples replayed on the real code via go test -overlay"
 NOTE_COMMON = ("Trusted: go/ssa as the semantics of the code and govc's SSA-to-SMT translation; the trusted_base list in the evidence file (models of stdlib/protobuf/zap calls, assumed contracts); "
   "mathematical integers with no-overflow obligations on signed arithmetic; slice/string lengths <= 2^56; pointer receivers non-nil; no goroutine interleavings, no crash points, no liveness.")
